@@ -320,9 +320,9 @@ def sub_bfs(rec, seed, shard, nshards, ns=(1, 2, 3, 4), ms=(1, 2, 3), agings=(0,
     for (ens, ems, eag, edl, emax) in extra:
         sets += [(p, tuple(edl), emax) for p in _param_sets(ens, ems, eag)]
     notes = {}
-    for i, (p, dl, mx) in enumerate(sets):
-        if i % nshards != shard:
-            continue
+    mine = [x for i, x in enumerate(sets) if i % nshards == shard]
+    mine.sort(key=lambda x: (x[0][0], x[0][1], x[0][2]))  # small sets first: the first counterexample reported is a small one
+    for p, dl, mx in mine:
         _bfs_one(rec, p, dl, mx, notes)
     rec.note(f"sets_shard{shard}", notes)
 
@@ -754,7 +754,7 @@ def check_turn(case, rec=None):
             n = len(logs[fn])
             if s not in calls and n:
                 raise Violation(f"turn yielded at {stage_end!r} but {fn} has {n} record(s) of a later stage", case, "later-stage-logged")
-            if s in calls and n != 1 and not (s == "speak" and stage_end == "T3"):
+            if s in calls and n != 1:
                 raise Violation(f"stage {s} ran but {fn} has {n} records", case, "stage-log-count")
     turns = logs["turn.jsonl"]
     if len(turns) != 1:
